@@ -45,6 +45,13 @@ type gen struct {
 	callees [][2]int // internal call instruction id -> callee function id
 	stores  [][3]int // (function id, address node, is global) for C11/C12: writes
 	gwrites []string
+	alias    [][2]int // address / view derivation (for C11, C12)
+	paramSrc []int
+	globSrc  []int
+	poolGets [][2]int // node, function id
+	writes   [][3]int // written object node, instruction id, inside an init function 0/1
+	rets     [][3]int // function id, result node, instruction id naming it
+	puts     [][2]int // instruction id, deferred 0/1
 	implicit [][2]int // branch condition node -> phi / returned value whose choice it controls (control dependence)
 	controlled [][2]int // branch condition node, placed instruction id it controls
 }
@@ -135,6 +142,37 @@ func refType(t types.Type) bool {
 	}
 	return false
 }
+// viewType: a value of this type may be a view of (or point to) memory
+func viewType(t types.Type) bool {
+	if b, ok := t.Underlying().(*types.Basic); ok {
+		return b.Info()&types.IsString != 0 || b.Kind() == types.UnsafePointer
+	}
+	return refType(t)
+}
+
+func (g *gen) aedge(from, to int) {
+	if from != 0 && to != 0 && from != to {
+		g.alias = append(g.alias, [2]int{from, to})
+	}
+}
+
+type contentKey struct{ n int }
+
+// content(n): what the memory that n points to (or views) holds
+func (g *gen) content(n int) int {
+	if n == 0 {
+		return 0
+	}
+	return g.node(contentKey{n}, "memory behind "+g.names[n-1])
+}
+
+// derive: v is derived from x by address arithmetic / conversion: it points into the same memory
+func (g *gen) derive(x, v int) {
+	g.aedge(x, v)
+	g.aedge(g.content(x), g.content(v))
+	g.aedge(g.content(v), g.content(x))
+}
+
 func textType(t types.Type) bool {
 	switch u := t.Underlying().(type) {
 	case *types.Basic:
@@ -159,10 +197,14 @@ func barrier(name string) bool {
 func (g *gen) doFunc(fn *ssa.Function) {
 	fid := g.fnIDs[fn]
 	exported := fn.Object() != nil && fn.Object().Exported() && fn.Parent() == nil && fn.Signature.Recv() == nil && fn.Pkg != nil && fn.Pkg.Pkg.Path() == root
+	expAny := fn.Object() != nil && fn.Object().Exported() && fn.Parent() == nil && fn.Pkg != nil && fn.Pkg.Pkg.Path() == root && !strings.HasPrefix(fn.Name(), "Verif")
 	for _, p := range fn.Params {
 		id := g.val(p)
 		if exported && textType(p.Type()) {
 			g.srcU = append(g.srcU, id)
+		}
+		if expAny && refType(p.Type()) {
+			g.paramSrc = append(g.paramSrc, id, g.content(id))
 		}
 	}
 	for _, fv := range fn.FreeVars {
@@ -429,6 +471,7 @@ func (g *gen) tupleSlot(result ssa.Value, i, n int) int {
 }
 
 func (g *gen) doInstr(fn *ssa.Function, fid int, b *ssa.BasicBlock, in ssa.Instruction) {
+	g.aliasInstr(fn, fid, in)
 	switch x := in.(type) {
 	case *ssa.BinOp:
 		v := g.val(x)
@@ -542,6 +585,193 @@ func (g *gen) doInstr(fn *ssa.Function, fid int, b *ssa.BasicBlock, in ssa.Instr
 	default:
 		fmt.Fprintf(os.Stderr, "gen_ssa: unhandled instruction %T in %s\n", in, fn)
 		os.Exit(3)
+	}
+}
+
+// aliasInstr: which values are views of / pointers into the same memory, and what is written
+func (g *gen) aliasInstr(fn *ssa.Function, fid int, in ssa.Instruction) {
+	isInit := b2i(fn.Name() == "init" || strings.HasPrefix(fn.Name(), "init#") || strings.HasPrefix(fn.Name(), "init$"))
+	wr := func(target ssa.Value, what string) {
+		if t := g.val(target); t != 0 {
+			g.writes = append(g.writes, [3]int{t, g.ins(in.Pos(), fn, what), isInit})
+		}
+	}
+	switch x := in.(type) {
+	case *ssa.FieldAddr:
+		g.derive(g.val(x.X), g.val(x))
+	case *ssa.IndexAddr:
+		g.derive(g.val(x.X), g.val(x))
+	case *ssa.Slice:
+		g.derive(g.val(x.X), g.val(x))
+	case *ssa.UnOp:
+		if x.Op == token.MUL && viewType(x.Type()) {
+			g.aedge(g.content(g.val(x.X)), g.val(x)) // a pointer / slice / string loaded from that memory
+		}
+	case *ssa.Phi:
+		for _, e := range x.Edges {
+			g.derive(g.val(e), g.val(x))
+		}
+	case *ssa.Convert:
+		g.derive(g.val(x.X), g.val(x))
+	case *ssa.ChangeType:
+		g.derive(g.val(x.X), g.val(x))
+	case *ssa.ChangeInterface:
+		g.derive(g.val(x.X), g.val(x))
+	case *ssa.MakeInterface:
+		if viewType(x.X.Type()) {
+			g.derive(g.val(x.X), g.val(x))
+		}
+	case *ssa.TypeAssert:
+		g.derive(g.val(x.X), g.val(x))
+	case *ssa.SliceToArrayPointer:
+		g.derive(g.val(x.X), g.val(x))
+	case *ssa.Field:
+		if viewType(x.Type()) {
+			g.aedge(g.val(x.X), g.val(x))
+		}
+	case *ssa.Index:
+		if viewType(x.Type()) {
+			g.aedge(g.val(x.X), g.val(x))
+		}
+	case *ssa.Lookup:
+		if viewType(x.Type()) {
+			g.aedge(g.val(x.X), g.val(x))
+		}
+	case *ssa.Extract:
+		if viewType(x.Type()) {
+			if call, ok := x.Tuple.(*ssa.Call); ok {
+				n := call.Call.Signature().Results().Len()
+				g.derive(g.tupleSlot(call, x.Index, n), g.val(x))
+			}
+			g.derive(g.val(x.Tuple), g.val(x))
+		}
+	case *ssa.MakeClosure:
+		f := x.Fn.(*ssa.Function)
+		for i, bnd := range x.Bindings {
+			g.aedge(g.val(bnd), g.val(f.FreeVars[i]))
+			g.aedge(g.val(bnd), g.val(x))
+		}
+	case *ssa.Store:
+		if viewType(x.Val.Type()) {
+			g.aedge(g.val(x.Val), g.content(g.val(x.Addr))) // the memory now holds that view
+		}
+		wr(x.Addr, "store")
+	case *ssa.MapUpdate:
+		wr(x.Map, "map update")
+	case *ssa.Send:
+		g.aedge(g.val(x.X), g.val(x.Chan))
+	case *ssa.Return:
+		for i, r := range x.Results {
+			rn := g.node(retKey{fn, i}, fmt.Sprintf("%s result %d", fn.String(), i))
+			if viewType(r.Type()) {
+				g.derive(g.val(r), rn)
+			}
+		}
+	case *ssa.Call, *ssa.Defer, *ssa.Go:
+		var c *ssa.CallCommon
+		var result ssa.Value
+		deferred := 0
+		switch y := in.(type) {
+		case *ssa.Call:
+			c, result = &y.Call, y
+		case *ssa.Defer:
+			c, deferred = &y.Call, 1
+		case *ssa.Go:
+			c = &y.Call
+		}
+		var args []ssa.Value
+		if c.IsInvoke() {
+			args = append(args, c.Value)
+		}
+		args = append(args, c.Args...)
+		if bi, ok := c.Value.(*ssa.Builtin); ok {
+			switch bi.Name() {
+			case "copy":
+				wr(args[0], "copy into")
+			case "append":
+				wr(args[0], "append to")
+				g.derive(g.val(args[0]), g.val(result))
+			case "clear":
+				wr(args[0], "clear")
+			}
+			return
+		}
+		name := ""
+		if sc := c.StaticCallee(); sc != nil {
+			name = sc.String()
+			if g.ours[sc] {
+				for i, a := range args {
+					if i < len(sc.Params) && viewType(a.Type()) {
+						g.derive(g.val(a), g.val(sc.Params[i]))
+					}
+				}
+				nres := sc.Signature.Results().Len()
+				for i := 0; i < nres; i++ {
+					g.derive(g.node(retKey{sc, i}, fmt.Sprintf("%s result %d", sc.String(), i)), g.tupleSlot(result, i, nres))
+				}
+				return
+			}
+		} else if !c.IsInvoke() {
+			// a function value: every function of ours with that signature
+			sig, _ := c.Value.Type().Underlying().(*types.Signature)
+			for f := range g.ours {
+				if sig != nil && f.Signature.Recv() == nil && types.Identical(f.Signature, sig) {
+					for i, a := range args {
+						if i < len(f.Params) && viewType(a.Type()) {
+							g.derive(g.val(a), g.val(f.Params[i]))
+						}
+					}
+					for i := 0; i < f.Signature.Results().Len(); i++ {
+						g.derive(g.node(retKey{f, i}, fmt.Sprintf("%s result %d", f.String(), i)), g.tupleSlot(result, i, f.Signature.Results().Len()))
+					}
+				}
+			}
+			return
+		} else {
+			for f := range g.ours {
+				if f.Signature.Recv() != nil && f.Name() == c.Method.Name() && types.Identical(dropRecv(f.Signature), c.Method.Type()) {
+					ps := f.Params
+					for i, a := range args {
+						if i < len(ps) && viewType(a.Type()) {
+							g.derive(g.val(a), g.val(ps[i]))
+						}
+					}
+					for i := 0; i < f.Signature.Results().Len(); i++ {
+						g.derive(g.node(retKey{f, i}, fmt.Sprintf("%s result %d", f.String(), i)), g.tupleSlot(result, i, f.Signature.Results().Len()))
+					}
+				}
+			}
+			name = "(" + c.Value.Type().String() + ")." + c.Method.Name()
+		}
+		switch {
+		case strings.HasSuffix(name, "sync.Pool).Get"):
+			if result != nil {
+				g.poolGets = append(g.poolGets, [2]int{g.val(result), fid})
+				g.poolGets = append(g.poolGets, [2]int{g.content(g.val(result)), fid})
+			}
+		case strings.HasSuffix(name, "sync.Pool).Put"):
+			g.puts = append(g.puts, [2]int{g.ins(in.Pos(), fn, "Put"), deferred})
+		case strings.Contains(name, "binary.bigEndian).PutUint") || strings.Contains(name, "binary.littleEndian).PutUint"):
+			wr(args[len(args)-2], "PutUint into")
+		case strings.HasSuffix(name, "crypto/rand.Read") || strings.HasSuffix(name, "io.ReadFull"):
+			wr(args[len(args)-1], "read into")
+		case strings.HasSuffix(name, "hex.Decode") || strings.HasSuffix(name, "json.Unmarshal"):
+			// destination arguments of decoders
+			if strings.HasSuffix(name, "hex.Decode") {
+				wr(args[0], "decode into")
+			} else {
+				wr(args[1], "decode into")
+			}
+		default:
+			// code outside the analysed packages may return a view of what it was given
+			if result != nil && viewType(result.Type()) && !strings.Contains(name, "sync.Pool") {
+				for _, a := range args {
+					if viewType(a.Type()) {
+						g.derive(g.val(a), g.val(result))
+					}
+				}
+			}
+		}
 	}
 }
 
@@ -683,6 +913,56 @@ func main() {
 		ib[i] = fmt.Sprintf("(%d, %d, %d, %d)", x[0], x[1], x[2], x[3])
 	}
 	fmt.Fprintf(&b, "(* kind (1 comparison, 2 external call, 3 internal call), instruction, function, block *)\nDefinition placed : list (positive * positive * positive * positive) := [%s].\n", strings.Join(ib, "; "))
+	var globals []int
+	for k, id := range g.ids {
+		switch x := k.(type) {
+		case retKey:
+			if x.fn != nil {
+				g.rets = append(g.rets, [3]int{g.fnIDs[x.fn], id, 0})
+			}
+		case *ssa.Global:
+			if x.Pkg != nil && strings.HasPrefix(x.Pkg.Pkg.Path(), root) {
+				globals = append(globals, id)
+			}
+		}
+	}
+	sort.Slice(g.rets, func(i, j int) bool { return g.rets[i][1] < g.rets[j][1] })
+	for i := range g.rets {
+		for fn, fid := range g.fnIDs {
+			if fid == g.rets[i][0] {
+				g.rets[i][2] = g.ins(fn.Pos(), fn, "result (a view of a pooled buffer leaves the function that took it)")
+			}
+		}
+	}
+	sort.Ints(globals)
+	for _, id := range globals {
+		g.globSrc = append(g.globSrc, id, g.content(id))
+	}
+	pr := func(xs [][2]int) string {
+		o := make([]string, len(xs))
+		for i, x := range xs {
+			o[i] = fmt.Sprintf("(%d, %d)", x[0], x[1])
+		}
+		return "[" + strings.Join(o, "; ") + "]"
+	}
+	tr := make([]string, len(g.writes))
+	for i, x := range g.writes {
+		tr[i] = fmt.Sprintf("(%d, %d, %d)", x[0], x[1], x[2]+1)
+	}
+	fmt.Fprintf(&b, "(* views and pointers: x aliases into y *)\nDefinition alias_edges : list (positive * positive) := %s.\n", pr(g.alias))
+	fmt.Fprintf(&b, "Definition param_refs : list positive := %s.\nDefinition global_refs : list positive := %s.\n", plist(nz(g.paramSrc)), plist(nz(g.globSrc)))
+	fmt.Fprintf(&b, "(* pooled buffer, function that took it *)\nDefinition pool_gets : list (positive * positive) := %s.\n", pr(g.poolGets))
+	fmt.Fprintf(&b, "(* written object, instruction, 2 = inside an init function *)\nDefinition writes : list (positive * positive * positive) := [%s].\n", strings.Join(tr, "; "))
+	rs := make([]string, len(g.rets))
+	for i, x := range g.rets {
+		rs[i] = fmt.Sprintf("(%d, %d, %d)", x[0], x[1], x[2])
+	}
+	fmt.Fprintf(&b, "(* function, result node, instruction naming it *)\nDefinition results : list (positive * positive * positive) := [%s].\n", strings.Join(rs, "; "))
+	pt := make([]string, len(g.puts))
+	for i, x := range g.puts {
+		pt[i] = fmt.Sprintf("(%d, %d)", x[0], x[1]+1)
+	}
+	fmt.Fprintf(&b, "(* Pool.Put call, 2 = deferred *)\nDefinition pool_puts : list (positive * positive) := [%s].\n", strings.Join(pt, "; "))
 	mg := make([]string, len(g.implicit))
 	for i, x := range g.implicit {
 		mg[i] = fmt.Sprintf("(%d, %d)", x[0], x[1])
@@ -708,6 +988,7 @@ func main() {
 		fmt.Fprintf(&b, "\"%s\"%%string", q(s))
 	}
 	b.WriteString("].\n")
+	b.WriteString("Definition mem_facts : mfacts := mkMFacts alias_edges param_refs global_refs pool_gets writes results pool_puts instr_names.\n")
 	b.WriteString("Definition facts : facts := mkFacts edges implicit_edges sources_hmac sources_caller comparisons external_calls external_callees placed controlled call_targets instr_names.\n")
 	if err := os.WriteFile(out+".names", []byte(strings.Join(g.names, "\n")+"\n--globals written outside init--\n"+strings.Join(g.gwrites, "\n")+"\n"), 0o644); err != nil {
 		panic(err)
